@@ -71,6 +71,7 @@ type replayResult struct {
 	Vacuous  bool
 	Ran      bool
 	Crashed  bool
+	Race     bool
 }
 
 // nativeReplay runs the given replay files against the real build.
@@ -150,9 +151,11 @@ func nativeReplayBatch(P *Program, files []string, race bool) (map[string]*repla
 	os.WriteFile(ovPath, ob, 0644)
 	listPath := filepath.Join(tmp, "list.txt")
 	os.WriteFile(listPath, []byte(strings.Join(files, "\n")+"\n"), 0644)
-	args := []string{"test", "-tags", "verif", "-vet=off", "-count=1", "-overlay", ovPath, "-run", "^TestVerifReplay$", "-timeout", "120s", "-v"}
+	args := []string{"test", "-tags", "verif", "-vet=off", "-overlay", ovPath, "-run", "^TestVerifReplay$", "-timeout", "120s", "-v"}
 	if race {
-		args = append(args, "-race")
+		args = append(args, "-race", "-count=3")
+	} else {
+		args = append(args, "-count=1")
 	}
 	args = append(args, ".")
 	cmd := exec.Command("go", args...)
@@ -172,7 +175,7 @@ func nativeReplayBatch(P *Program, files []string, race bool) (map[string]*repla
 	}
 	if len(res) == 0 && runErr != nil {
 		so := string(out)
-		if strings.Contains(so, "panic:") || strings.Contains(so, "fatal error:") || strings.Contains(so, "test timed out") {
+		if strings.Contains(so, "panic:") || strings.Contains(so, "fatal error:") || strings.Contains(so, "test timed out") || strings.Contains(so, "DATA RACE") {
 			return res, so, nil
 		}
 		return res, so, fmt.Errorf("native replay failed: %v", runErr)
@@ -349,11 +352,12 @@ func cmdCheck(args []string) int {
 	}
 
 	// ---- native replay of candidates ----
-	replayDir := filepath.Join(verifDir, "replays")
+	replayDir := envOr("VERIF_REPLAY_DIR", filepath.Join(verifDir, "replays"))
 	os.MkdirAll(replayDir, 0755)
 	sort.Slice(allV, func(a, b int) bool { return allV[a].Key < allV[b].Key })
 	const maxReplays = 40
 	var files []string
+	skippedRace := 0
 	fileOf := map[*Violation]string{}
 	for n, v := range allV {
 		if n >= maxReplays {
@@ -370,7 +374,51 @@ func cmdCheck(args []string) int {
 		files = append(files, path)
 		fileOf[v] = path
 	}
-	results, rawOut, rerr := nativeReplay(P, files, false)
+	// race candidates are replayed one by one under the race detector;
+	// one replay per distinct pair of racing functions
+	var plainFiles []string
+	raceFiles := map[string]bool{}
+	seenPair := map[string]bool{}
+	const maxRaceReplays = 8
+	for _, v := range allV {
+		path, ok := fileOf[v]
+		if !ok {
+			continue
+		}
+		if v.Kind != "race" {
+			plainFiles = append(plainFiles, path)
+			continue
+		}
+		pair := v.Key[strings.LastIndex(v.Key, "|")+1:]
+		if seenPair[pair] || len(raceFiles) >= maxRaceReplays {
+			delete(fileOf, v)
+			os.Remove(path)
+			skippedRace++
+			continue
+		}
+		seenPair[pair] = true
+		raceFiles[path] = true
+	}
+	results, rawOut, rerr := nativeReplay(P, plainFiles, false)
+	for path := range raceFiles {
+		if rerr != nil {
+			break
+		}
+		r1, o1, e1 := nativeReplayBatch(P, []string{path}, true)
+		rawOut += o1
+		if e1 != nil && !strings.Contains(o1, "DATA RACE") {
+			rerr = e1
+			break
+		}
+		rr := r1[path]
+		if rr == nil {
+			rr = &replayResult{Ran: true}
+		}
+		if strings.Contains(o1, "WARNING: DATA RACE") {
+			rr.Race = true
+		}
+		results[path] = rr
+	}
 	if rerr != nil {
 		fmt.Fprintln(os.Stderr, rerr)
 		fmt.Fprintln(os.Stderr, tailStr(rawOut, 3000))
@@ -386,6 +434,9 @@ func cmdCheck(args []string) int {
 		return nil
 	}
 	violations, unconfirmed := 0, 0
+	if skippedRace > 0 {
+		fmt.Fprintf(os.Stderr, "%d race candidates share a racing pair with a replayed one (or exceed the replay cap) and were not replayed separately\n", skippedRace)
+	}
 	knownHit := map[string]bool{}
 	var vioSamples []interface{}
 	for _, v := range allV {
@@ -396,7 +447,9 @@ func cmdCheck(args []string) int {
 		r := results[path]
 		confirmed := false
 		if r != nil && r.Ran && !r.Vacuous {
-			if v.Kind == "panic" || r.Crashed {
+			if v.Kind == "race" {
+				confirmed = r.Race
+			} else if v.Kind == "panic" || r.Crashed {
 				confirmed = r.Panic != ""
 			} else {
 				for _, f := range r.Failures {
@@ -493,9 +546,10 @@ func cmdCheck(args []string) int {
 		"wall_s":      time.Since(t0).Seconds(),
 		"violations":  violations,
 	}
-	os.MkdirAll(filepath.Join(verifDir, "evidence"), 0755)
+	evDir := envOr("VERIF_EVIDENCE_DIR", filepath.Join(verifDir, "evidence"))
+	os.MkdirAll(evDir, 0755)
 	eb, _ := json.MarshalIndent(ev, "", " ")
-	if err := os.WriteFile(filepath.Join(verifDir, "evidence", prop+".json"), eb, 0644); err != nil {
+	if err := os.WriteFile(filepath.Join(evDir, prop+".json"), eb, 0644); err != nil {
 		fmt.Fprintln(os.Stderr, err)
 		return 2
 	}
@@ -552,7 +606,8 @@ func writeInfraEvidence(prop, tier string, seed int, why string, d time.Duration
 		"coverage": map[string]interface{}{"explanation": "infrastructure failure, no verdict: " + why, "exhaustive": false},
 		"wall_s":   d.Seconds(), "violations": 0,
 	}
-	os.MkdirAll(filepath.Join(verifDir, "evidence"), 0755)
+	evDir := envOr("VERIF_EVIDENCE_DIR", filepath.Join(verifDir, "evidence"))
+	os.MkdirAll(evDir, 0755)
 	eb, _ := json.MarshalIndent(ev, "", " ")
-	os.WriteFile(filepath.Join(verifDir, "evidence", prop+".json"), eb, 0644)
+	os.WriteFile(filepath.Join(evDir, prop+".json"), eb, 0644)
 }
